@@ -1012,6 +1012,24 @@ func (s *Server) LogNote(kind string, c *Conn, msgID int64, note string) {
 	s.log(Event{Kind: kind, Conn: id, MsgID: msgID, Note: note})
 }
 
+// AdoptHandshakeKey makes the key this connection's exchange produced the connection's key, so that the server can
+// speak first (it considers the key established once it has answered set_client_DH_params). False if the exchange
+// never got that far.
+func (c *Conn) AdoptHandshakeKey() bool {
+	if c.hs == nil || c.hs.AuthKey == nil {
+		return false
+	}
+	ki := c.S.Store.Get(ref.AuthKeyID(c.hs.AuthKey))
+	if ki == nil {
+		return false
+	}
+	c.key = ki
+	if c.Session == 0 {
+		c.Session = 0x5e55104e5e55104e
+	}
+	return true
+}
+
 // SetSalt switches the salt the server accepts for this connection's key (salt rotation).
 func (c *Conn) SetSalt(salt int64) {
 	if c.key != nil {
